@@ -1464,31 +1464,37 @@ def parse_search(line):
 
 
 def value_pool(ctx, n):
-    """positions for value comparison: mostly sparse (so that depth 3 is affordable for the Lean reference)"""
-    pool = small_pool(ctx, n * 2, max_men=32)
+    """positions for value comparison with the depth chosen so that the Lean reference stays affordable:
+    the engine searches first (fast) and reports its node count per iteration"""
+    pool = small_pool(ctx, int(n * 1.3), max_men=32)
+    maxd = 3 if ctx.quick else 4
+    go = run_batch(HDRV, [f"search\t{f}\t{maxd}" for f, _ in pool], timeout_per_op=120.0)
+    budget = 9000 if ctx.quick else 60000
     out = []
-    for f, cnt in pool:
-        nmen = sum(1 for c in f.split()[0] if c.isalpha())
-        if nmen <= 8:
-            d = 3
-        elif nmen <= 16:
-            d = 2
-        else:
-            d = 1 if ctx.quick else 2
-        if not ctx.quick and nmen <= 6:
-            d = 4
-        out.append((f, d, cnt))
+    for (f, cnt), g in zip(pool, go):
+        its = parse_search(g)
+        if its is None:
+            out.append((f, 1, cnt, g))      # crash: keep, it will be reported
+            continue
+        d = 0
+        for it in its:
+            if int(it.get("nodes", "0")) <= budget:
+                d = int(it["d"])
+        if d == 0:
+            ctx.bump("skipped_too_expensive")
+            continue
+        out.append((f, d, cnt, g))
     return out[:n]
 
 
 def check_C04(ctx):
     n = ctx.size(110, 2500)
-    pool = value_pool(ctx, n)
-    ops = [f"search\t{f}\t{d}" for f, d, _ in pool]
+    pool4 = value_pool(ctx, n)
+    pool = [(f, d, c) for f, d, c, _ in pool4]
+    go = [g for _, _, _, g in pool4]
     mops = [f"msearch\t{f}\t{d}\t0" for f, d, _ in pool]
-    go = run_batch(HDRV, ops)
     ref = run_batch(MDRV, mops, shards=infra.NCPU, timeout_per_op=300.0)
-    ctx.co["co_value"] = len(ops)
+    ctx.co["co_value"] = len(mops)
     admitted = 0
     for (f, d, cnt), g, r in zip(pool, go, ref):
         ctx.case(f"{f}|{d}")
@@ -1511,7 +1517,7 @@ def check_C04(ctx):
             if a.get("score") == b.get("score") and abs(int(a.get("score"))) > 90000:
                 ctx.bump("mate_valued")
         if len(ctx.samples) < 3:
-            ctx.sample({"fen": f, "depth": d, "engine": gi[-1], "reference": ri[-1]})
+            ctx.sample({"fen": f, "depth": d, "engine": gi[min(d, len(gi)) - 1], "reference": ri[-1]})
     ctx.notes.append(f"lazy-sensitive trees admitted: {admitted}")
     iteration_sequence_check(ctx, pool)
 
